@@ -220,7 +220,9 @@ Lemma E_87 : forall k, INR k * u <= 1 / 8 -> E k <= 8 / 7 * (INR k * u).
 Proof.
   intros k Hk. pose proof (pos_INR k) as Hn.
   apply Rle_trans with (1 := E_gamma k ltac:(lra)).
-  apply Rmult_le_reg_r with (1 - INR k * u); [lra|].
+  assert (Hx : 0 <= INR k * u) by (apply Rmult_le_pos; lra).
+  set (x := INR k * u) in *.
+  apply Rmult_le_reg_r with (1 - x); [lra|].
   unfold Rdiv; rewrite Rmult_assoc, Rinv_l, Rmult_1_r by lra. nra.
 Qed.
 
@@ -327,4 +329,43 @@ Proof.
   repeat split; try exact Ri; apply (m_mul 1 13); assumption.
 Qed.
 
+Lemma E4 : E 4 <= 5 * u.
+Proof. apply Rle_trans with (1 := E_lin 4 ltac:(simpl INR; lra)). simpl INR; lra. Qed.
+
+Lemma E15 : E 15 <= 16 * u.
+Proof. apply Rle_trans with (1 := E_lin 15 ltac:(simpl INR; lra)). simpl INR; lra. Qed.
+
+Lemma rel_err_lin : forall k c x y, E k <= c * u -> rel k x y -> Rabs (x - y) <= c * u * Rabs y.
+Proof.
+  intros k c x y Hc H. apply Rle_trans with (1 := rel_err k x y H).
+  apply Rmult_le_compat_r; [apply Rabs_pos | exact Hc].
+Qed.
+
+(* MAIN A, potential kernel *)
+Theorem pair_potential_error : forall s t, apart s t ->
+  let '(fx, fy, fz, inv) := pair R ar s t in
+  Rabs (inv - / rdist s t) <= 5 * u * / rdist s t.
+Proof.
+  intros s t Hap. pose proof (pair_rel s t Hap) as H.
+  destruct (pair R ar s t) as [[[fx fy] fz] inv]. destruct H as (_ & _ & _ & Hi).
+  pose proof (rel_err_lin 4 5 _ _ E4 Hi) as HH.
+  rewrite (Rabs_pos_eq (/ rdist s t)) in HH; [exact HH|].
+  left; apply Rinv_0_lt_compat, rdist_pos, Hap.
+Qed.
+
+(* MAIN A, force components *)
+Theorem pair_force_error : forall s t, apart s t ->
+  let '(fx, fy, fz, inv) := pair R ar s t in
+  Rabs (fx - f_x _ (contrib s t)) <= 16 * u * Rabs (f_x _ (contrib s t)) /\
+  Rabs (fy - f_y _ (contrib s t)) <= 16 * u * Rabs (f_y _ (contrib s t)) /\
+  Rabs (fz - f_z _ (contrib s t)) <= 16 * u * Rabs (f_z _ (contrib s t)).
+Proof.
+  intros s t Hap. pose proof (pair_rel s t Hap) as H.
+  destruct (pair R ar s t) as [[[fx fy] fz] inv]. destruct H as (Hx & Hy & Hz & _).
+  repeat split; apply (rel_err_lin 15 16 _ _ E15); assumption.
+Qed.
+
 End Calc.
+
+Print Assumptions pair_potential_error.
+Print Assumptions pair_force_error.
